@@ -812,7 +812,7 @@ func (r *Run) monitor() {
 			continue
 		}
 		same++
-		if same < 2 {
+		if same < 3 {
 			continue
 		}
 		if blockedOutside(atomic.LoadInt64(&r.goids[cur])) {
